@@ -205,6 +205,16 @@ Lemma K9_declared_refuted :
       /\ known_absent_dangling tabs wl = true).
 Proof. cbv zeta. repeat split; vm_compute; reflexivity. Qed.
 
+(* K28: check mode reports a status where the real run fails (missing parent directory) *)
+Lemma K28_check_misses_failure_refuted :
+  let t := TFile {| fp_path := ["np"; "d"]%string; fp_state := STouch; fp_mode := None |} in
+  fst (run_task env0 t true {| sw := w_empty; slog := [] |}) = ROk true
+  /\ fst (run_task env0 t false {| sw := w_empty; slog := [] |}) = RErr
+  /\ (let c := TCopy {| cp_input := IContent "x"; cp_dest := ["np"; "d"]%string; cp_mode := MNone |} in
+      fst (run_task env0 c true {| sw := w_empty; slog := [] |}) = ROk true
+      /\ fst (run_task env0 c false {| sw := w_empty; slog := [] |}) = RErr).
+Proof. cbv zeta. repeat split; vm_compute; reflexivity. Qed.
+
 (* K19: sync of a dependency-installed package never reaches the declared state *)
 Lemma K19_sync_refuted :
   let d := {| installed := ["a"%string]; explicit := []; sysver := 0; dbver := 0; upstream := 0 |} in
